@@ -1,44 +1,69 @@
 """C08 — check configuration and MANIFEST entry."""
-CFG = {'assumptions': ['f64 inputs cross the boundary as bit patterns and are decoded to exact rationals; Rust f64 '
-                 'ops are IEEE-754 round-to-nearest-even without fused multiply-add (the model rounds after '
-                 'every arithmetic operation of hull_set / square_euclidean_distance with its own roundF64)',
-                 'orientation tests are exact: RobustKernel::orient2d returns the sign of the exact determinant '
-                 'for f64, SimpleKernel on i64 does not overflow (|c| <= 2^29 enforced by the driver)',
+CFG = {'assumptions': ['f64 inputs cross the boundary as bit patterns and are decoded to exact rationals; Rust f64 ops are '
+                 'IEEE-754 round-to-nearest-even without fused multiply-add (the model rounds after every arithmetic '
+                 'operation of hull_set / square_euclidean_distance with its own roundF64)',
+                 'orientation tests are exact: RobustKernel::orient2d returns the sign of the exact determinant for '
+                 'f64, SimpleKernel on i64 does not overflow (|c| <= 2^29 enforced by the driver)',
                  'coordinates are finite'],
  'count': {'quick': 40000, 'thorough': 1600000},
- 'lean_files': ['GeoModel/Hull.lean', 'GeoModel/Orient.lean', 'GeoModel/Traverse.lean', 'GeoModel/Ops/C08.lean',
-                'GeoProofs/Lemmas/C08Mem.lean', 'GeoProofs/Lemmas/C08Trivial.lean',
-                'GeoProofs/Lemmas/C08QAlg.lean', 'GeoProofs/Lemmas/C08QSort.lean', 'GeoProofs/Lemmas/C08QScan.lean',
-                'GeoProofs/Lemmas/C08QHull.lean', 'GeoProofs/Lemmas/C08QQuick.lean', 'GeoProofs/Lemmas/C08QRound.lean',
-                'GeoProofs/Lemmas/C08QF64.lean'],
+ 'lean_files': ['GeoModel/Hull.lean',
+                'GeoModel/Orient.lean',
+                'GeoModel/Traverse.lean',
+                'GeoModel/Ops/C08.lean',
+                'GeoProofs/Lemmas/C08Mem.lean',
+                'GeoProofs/Lemmas/C08Trivial.lean',
+                'GeoProofs/Lemmas/C08QAlg.lean',
+                'GeoProofs/Lemmas/C08QSort.lean',
+                'GeoProofs/Lemmas/C08QScan.lean',
+                'GeoProofs/Lemmas/C08QHull.lean',
+                'GeoProofs/Lemmas/C08QQuick.lean',
+                'GeoProofs/Lemmas/C08QRound.lean',
+                'GeoProofs/Lemmas/C08QF64.lean',
+                'GeoProofs/Lemmas/QHULCyc.lean',
+                'GeoProofs/Lemmas/QHULRing.lean',
+                'GeoProofs/Lemmas/QHULPart.lean',
+                'GeoProofs/Lemmas/QHULSet.lean',
+                'GeoProofs/Lemmas/QHULMain.lean',
+                'GeoProofs/Lemmas/QHULUniq.lean',
+                'GeoProofs/Lemmas/QHULDegen.lean'],
  'rule': 'coordinate multisets of 0-16 points (duplicates inserted) on 3x3..8x8 grids, boundary-heavy sets (many '
-         'collinear boundary points), all-collinear sets, fewer than four points, exactly shifted/scaled grids, '
-         'and regime-A sets with ~2^40..2^60 coordinates where the farthest-point dot product is rounded; '
-         'as MultiPoint / LineString / Polygon / MultiLineString / GeometryCollection; scalar f64 and i64; '
-         'ops hull (quick_hull, graham_hull(false), graham_hull(true), ConvexHull::convex_hull) and mrr '
-         '(minimum_rotated_rect); distinct by input text; empty inputs are tagged triv',
+         'collinear boundary points), all-collinear sets, fewer than four points, exactly shifted/scaled grids, and '
+         'regime-A sets with ~2^40..2^60 coordinates where the farthest-point dot product is rounded; as MultiPoint '
+         '/ LineString / Polygon / MultiLineString / GeometryCollection; scalar f64 and i64; ops hull (quick_hull, '
+         'graham_hull(false), graham_hull(true), ConvexHull::convex_hull) and mrr (minimum_rotated_rect); distinct '
+         'by input text; empty inputs are tagged triv',
  'trusted_base': ['modelled, not verified: sort_unstable_by in graham_hull is modelled as insertion sort; cases '
                   'where two distinct collinear points get the same rounded distance (the only way the sorted '
                   'sequence is not unique) are SKIPped and counted',
                   'minimum_rotated_rect is compared numerically (area within 2^-36 relative to the squared '
                   'coordinate scale) with the exact minimum over hull-edge directions; trigonometry is not modelled',
-                  'global convexity/containment is proved for the model Graham scan: with exact distances for all inputs '
-                  '(grahamHull_isStrictHull_exact), with roundF64 distances for all inputs outside the SKIP class '
-                  'grahamTie (grahamHull_isStrictHull_f64_partial; roundF64 is proved monotone); it is not proved for '
-                  'the ring kept by the recursive hull_set of quick-hull; there it is decided on every case by the '
-                  'verified checker isStrictHull evaluated on the implementation output']}
+                  'global convexity/containment is proved for the model of convex_hull / quick_hull and of the '
+                  'Graham scan: with exact arithmetic (rnd = id: i64, or f64 on exactly representable data) for all '
+                  'inputs with three non-collinear coordinates and no further hypothesis '
+                  '(convexHull_isStrictHull_exact, quickHull_isStrictHull_exact, grahamHull_isStrictHull_exact); '
+                  'with roundF64 for all inputs outside the SKIP class grahamTie '
+                  '(convexHull_isStrictHull_f64_partial, quickHull_isStrictHull_f64_partial, '
+                  'grahamHull_isStrictHull_f64_partial; roundF64 is proved monotone); the ring quick-hull keeps '
+                  'after is_strict_ccw_hull is the strict hull for every rounding function with no hypothesis on the '
+                  'arithmetic (quickHull_kept_ring_isStrictHull) - the tie hypothesis is only used by the Graham '
+                  'fallback; the checker isStrictHull is still evaluated on the implementation output of every case '
+                  '(it ties the model to the code)']}
 
-MANIFEST = {'note': 'Trusted: Lean 4.33 kernel (axioms propext, Classical.choice, Quot.sound only; audited per theorem '
-         'each run; no sorry, no native_decide, no added axioms); the Lean compiler running the model; the '
-         'Rust harness, generators and line protocol (sampling, not proof). The theorems are about the '
-         'hand-written model; the model is tied to the code by running both on the same inputs each run. '
-         'Global correctness (containment, convexity) of the Graham scan IS proved for the model: with exact '
-         'distances for all inputs, with binary64-rounded distances for all inputs outside the SKIP class grahamTie '
-         '(generally under the explicit hypothesis DistExactPivot); for the ring kept by the recursive '
-         'quick-hull it is NOT proved; there it is decided per case '
-         'by the checker isStrictHull whose soundness lemmas are proved. Two defects (F6 ties, K5 rounding in '
-         'the farthest-point search) were repaired by one fix: commit that verifies the quick-hull ring and falls '
-         'back to the Graham scan.',
+MANIFEST = {'note': 'Trusted: Lean 4.33 kernel (axioms propext, Classical.choice, Quot.sound only; audited per theorem each '
+         'run; no sorry, no native_decide, no added axioms); the Lean compiler running the model; the Rust harness, '
+         'generators and line protocol (sampling, not proof). The theorems are about the hand-written model; the '
+         'model is tied to the code by running both on the same inputs each run. Global correctness (closed, '
+         'strictly convex, counter-clockwise, vertices are input coordinates, contains every input coordinate) IS '
+         'proved for the model of convex_hull / quick_hull and of graham_hull(false): with exact arithmetic for all '
+         'inputs with three non-collinear coordinates, with binary64 rounding for all such inputs outside the SKIP '
+         'class grahamTie (a hypothesis used only by the Graham fallback; the ring quick-hull keeps after its '
+         "verification is proved correct for every rounding function). The fix: commit's is_strict_ccw_hull tests "
+         'local convexity and single winding only; that this implies global convexity, and that containment of the '
+         'input follows from the structure of hull_set, are theorems, so no defect was found in the verified path. '
+         'Uniqueness of the strict hull is proved, so quick-hull and Graham provably have the same vertex set. '
+         'Degenerate inputs (no three non-collinear coordinates) are characterised exactly. Two defects (F6 ties, K5 '
+         'rounding in the farthest-point search) were repaired earlier by one fix: commit that verifies the '
+         'quick-hull ring and falls back to the Graham scan.',
  'technique': 'Lean 4 proof (structural induction over the mirrored quick-hull/Graham/trivial-hull code; checker '
               'soundness) + model/implementation correspondence incl. an exact binary64 rounding model',
  'text': 'Exact Lean mirrors of quick_hull (slice permutations, last-maximum tie-break, dot product rounded in the '
@@ -47,32 +72,53 @@ MANIFEST = {'note': 'Trusted: Lean 4.33 kernel (axioms propext, Classical.choice
          'rounding function: hull vertices are input coordinates and the ring is closed (hull_set, quick-hull, '
          'Graham, trivial hull, ConvexHull; convex_hull = quick_hull ring); quick_hull returns either a ring that '
          'passed its verification or the Graham ring; the Graham stack pass keeps a strictly left-turning chain '
-         '(graham_pass_convex_partial: local invariant, any input order). Global correctness of the Graham scan: '
-         'the orientation order around the lexicographically least point is transitive in its half-plane '
+         '(graham_pass_convex_partial: local invariant, any input order). Global correctness of the Graham scan: the '
+         'orientation order around the lexicographically least point is transitive in its half-plane '
          '(orientation_order_trans, graham_cmp_trans) and the comparator is total (graham_cmp_total); the insertion '
          'sort returns a comparator-sorted list for every rounding (graham_sort_sorted), which is SortedAround in '
-         'exact terms when rounded distances order collinear points like exact ones (graham_sort_sortedAround_partial, '
-         '_exact for rnd = id); a popped point lies in the triangle pivot / point below / new point '
-         '(graham_popped_in_triangle); on a sorted list the stack pass keeps pivot + stack in strictly convex position '
-         '(every ordered triple turns left) and every processed point in the convex hull of the stack '
-         '(graham_pass_global_partial); hence the checker accepts the Graham ring: grahamHull_isStrictHull_exact '
-         '(rnd = id, all inputs with three non-collinear coordinates, no further hypothesis), '
-         'grahamHull_isStrictHull_partial and graham_contains_partial (any rounding, hypothesis DistExactPivot: seen '
-         'from the pivot, rounded squared distances order collinear points like exact ones), '
+         'exact terms when rounded distances order collinear points like exact ones '
+         '(graham_sort_sortedAround_partial, _exact for rnd = id); a popped point lies in the triangle pivot / point '
+         'below / new point (graham_popped_in_triangle); on a sorted list the stack pass keeps pivot + stack in '
+         'strictly convex position (every ordered triple turns left) and every processed point in the convex hull of '
+         'the stack (graham_pass_global_partial); hence the checker accepts the Graham ring: '
+         'grahamHull_isStrictHull_exact (rnd = id, all inputs with three non-collinear coordinates, no further '
+         'hypothesis), grahamHull_isStrictHull_partial and graham_contains_partial (any rounding, hypothesis '
+         'DistExactPivot: seen from the pivot, rounded squared distances order collinear points like exact ones), '
          'grahamHull_isStrictHull_notie_partial (any monotone rounding with rnd 0 = 0, input outside the SKIP class '
          'grahamTie; distExactPivot_monotone), grahamHull_isStrictHull_f64_partial (rnd = roundF64, which is proved '
          'monotone with roundF64 0 = 0: roundF64_monotone; only hypothesis: not in the SKIP class grahamTie), '
          'graham_contains_exact; the slice quick_hull hands to its Graham fallback has exactly the input coordinates '
-         '(quickHullRaw_same_coords), so quick_hull / convex_hull are accepted whenever the fallback is taken or fewer '
-         'than four coordinates are given (quickHull_isStrictHull_partial, convexHull_isStrictHull_partial: acceptance '
-         'of a kept quick-hull ring is a hypothesis); for fewer than four coordinates the whole property '
-         'holds (trivialHull_correct, small_hull_correct); the decidable checker isStrictHull is sound and '
-         'complete for its four clauses (closed, strict left turn at every vertex hence no repeated vertex and '
-         'none on the line through its neighbours, vertices are input coordinates, every input coordinate left '
-         'of or on every edge) and accepts nothing for inputs without three non-collinear coordinates; every '
-         'candidate box of minimum_rotated_rect contains all hull vertices and the minimum is taken '
-         '(mrr_contains, minBoxArea_le); kernel-evaluated witnesses of the two repaired defects. NOT proved: '
-         'containment for the ring kept by the recursive quick-hull (four or more points) and Graham on inputs '
-         'with a rounded-distance tie (SKIPped) (decided on every '
-         'generated case by the checker on the implementation output, quick-hull vs Graham vertex sets '
-         'compared), and area(mrr) <= area(bounding rect) (needs Freeman-Shapira; checked numerically per case).'}
+         '(quickHullRaw_same_coords). CORRECTNESS OF THE QUICK-HULL PATH: is_strict_ccw_hull (every cyclic triple '
+         'strictly left, the lexicographic direction of the edges changes exactly twice) implies that every vertex '
+         'of the ring is left of or on every edge (strictCcwHull_is_convex: the edge vectors of each '
+         'lexicographically monotone run lie in a half-plane where the cross product is a strict order, so seen from '
+         'any edge the cross products with the following edges are positive, then non-positive, and sum to zero); '
+         'the check does not test containment of the input - containment is proved from the structure of the '
+         'recursion: partition_slice partitions (partition_slice_spec), the first two removals are a '
+         'lexicographically least and greatest coordinate (quickHull_min_max), every point dropped by hull_set lies '
+         'in the triangle a, b, farthest point whatever point the rounded, tie-prone search picked '
+         '(hullSet_spans_slice), so every input coordinate is in the convex hull of the ring for every rounding '
+         'function (quickHull_ring_spans_input); hence a verified ring passes the checker '
+         '(verified_ring_is_strict_hull, quickHull_kept_ring_isStrictHull, quickHull_isStrictHull_of_verified: any '
+         'rounding, no hypothesis on the arithmetic), with three non-collinear coordinates the ring always has four '
+         'or more coordinates and is verified (quickHull_ring_verified_when_triangle), the hypothesis hraw of the '
+         'wave-3 theorems holds (quickHull_hraw), and convexHull_isStrictHull_exact / quickHull_isStrictHull_exact / '
+         'convexHull_contains_exact (rnd = id: all inputs with three non-collinear coordinates, no further '
+         'hypothesis), quickHull_isStrictHull_distExact_partial (any rounding, DistExactPivot, needed by the Graham '
+         'fallback only), convexHull_isStrictHull_f64_partial / quickHull_isStrictHull_f64_partial (roundF64, '
+         'outside the SKIP class grahamTie). UNIQUENESS: two rings accepted by the checker for the same coordinates '
+         'have the same vertex set (strict_hull_unique), so quick-hull and Graham agree '
+         '(quick_graham_same_vertices_exact, quick_graham_same_vertices_f64_partial). DEGENERATE INPUTS: without '
+         'three non-collinear coordinates convex_hull returns the closed pair of a lexicographically least and '
+         'greatest coordinate, [m, M, m] for fewer than four coordinates, [M, m, M] for four or more, [m, m] when '
+         'all are equal (convexHull_degenerate, quickHull_collinear_ring, close_pair_eq; trivialHull_degenerate for '
+         'zero / one coordinate); for fewer than four coordinates with a triangle the whole property holds '
+         '(trivialHull_correct, small_hull_correct); the decidable checker isStrictHull is sound and complete for '
+         'its four clauses (closed, strict left turn at every vertex hence no repeated vertex and none on the line '
+         'through its neighbours, vertices are input coordinates, every input coordinate left of or on every edge) '
+         'and accepts nothing for inputs without three non-collinear coordinates; every candidate box of '
+         'minimum_rotated_rect contains all hull vertices and the minimum is taken (mrr_contains, minBoxArea_le); '
+         'kernel-evaluated witnesses of the two repaired defects. NOT proved: quick-hull / Graham on f64 inputs with '
+         'a rounded-distance tie in the Graham fallback (SKIPped; decided on every generated case by the checker on '
+         'the implementation output, quick-hull vs Graham vertex sets compared), and area(mrr) <= area(bounding '
+         'rect) (needs Freeman-Shapira; checked numerically per case).'}
